@@ -559,6 +559,9 @@ def to_events(env, run):
     join_req = {}           # (conn, corr) -> (cid, member id, topics)
     sync_req = {}           # (conn, corr) -> (cid, generation)
     fetch_req = {}          # (conn, corr) -> (cid, {tp: offset})
+    stale_lo = [0]
+    lo_req = {}             # (conn, corr) -> when the ListOffsets request reached the broker (virtual ms)
+    adopted_at = {}         # cid -> vt of its latest adoption (asgS) / subscription change
     offfetch_slot = {}      # (conn, corr) -> slot to fill when the reply is seen delivered
     last_sync_gen = {}      # cid -> generation of the last delivered successful SyncGroup reply
     n = len(trace)
@@ -580,6 +583,7 @@ def to_events(env, run):
             m = midx.get(e["m"])
             op = e["op"]
             if op == "sub":
+                adopted_at[e["m"]] = e["vt"]
                 out.append(f"sub:{m}")
             elif op == "revS":
                 out.append(f"revS:{m}")
@@ -587,6 +591,7 @@ def to_events(env, run):
                 out.append(f"revE:{m}")
             elif op == "asgS":
                 g = last_sync_gen.get(e["m"], 0)
+                adopted_at[e["m"]] = e["vt"]
                 out.append(f"asgS:{m}:{g}:{_nl(sorted(pidx(tuple(tp)) for tp in e['tps']))}")
             elif op == "asgE":
                 out.append(f"asgE:{m}")
@@ -650,6 +655,8 @@ def to_events(env, run):
                         out.append(f"commit:{m}:{pidx((tpc['topic'], p['partition']))}:{p['offset']}:{1 if ok else 0}")
             elif api == "OffsetFetch":
                 offfetch_slot[key] = len(slots)     # the answer is computed now; filled in if it gets delivered
+            elif api == "ListOffsets":
+                lo_req[key] = e.get("arrived", e["vt"])
         elif ev == "reply" and e["client"] in midx:
             cid = e["client"]
             m = midx[cid]
@@ -690,7 +697,14 @@ def to_events(env, run):
                                 toks.append((f"noOffset:{m}:{pidx((tpc['topic'], p['partition']))}", i))
                     slots[si].extend(toks)
             elif api == "ListOffsets":
-                if delivered:
+                sent = lo_req.pop(key, None)
+                # a request that reached the broker before the member adopted its current assignment was sent
+                # for the previous one (it waited behind a parked Fetch on the same connection): its answer
+                # is no offer to the current epoch.  If the implementation uses it all the same, the next
+                # delivery / commit has no start position and is rejected there.
+                if delivered and sent is not None and sent <= adopted_at.get(cid, -1):
+                    stale_lo[0] += 1
+                elif delivered:
                     for tpc in f["topics"]:
                         for p in tpc["partitions"]:
                             if p["error_code"] == 0 and p.get("offset", -1) >= 0:
@@ -752,11 +766,15 @@ def check_c04(run):
         anyd = delivered_any.get(tp, set())
         return [k for k in range(0, c) if k in vis.get(tp, ()) and k not in anyd][:5]
 
+    lo_arrived = {(e["conn"], e["corr"]): e.get("arrived", e["vt"]) for e in trace
+                  if e["ev"] == "request" and e.get("api") == "ListOffsets"}
+    adopted_at = {}
     for i, e in enumerate(trace):
         ev = e["ev"]
         if ev == "h":
             cid = e["m"]
             if e["op"] in ("asgS", "sub"):
+                adopted_at[cid] = e["vt"]
                 for k in [k for k in epoch if k[0] == cid]:
                     if epoch[k][0] is not None and not epoch[k][1]:
                         starts.setdefault(k, []).append(epoch[k][0])
@@ -803,6 +821,8 @@ def check_c04(run):
         elif ev == "reply" and e["client"] in members and "fault" not in e and not e.get("undelivered"):
             cid = e["client"]
             f = e.get("fields") or {}
+            if e["api"] == "ListOffsets" and lo_arrived.get((e["conn"], e["corr"]), 1 << 60) <= adopted_at.get(cid, -1):
+                continue        # answer to a request of the previous assignment (see to_events)
             if e["api"] in ("OffsetFetch", "ListOffsets"):
                 for tpc in f["topics"]:
                     for p in tpc["partitions"]:
